@@ -354,6 +354,9 @@ func sgForeignOffer(r *vfRand, shape int, flavor string, fs *sgForeignSession) s
 		s.dir = vfPick(r, []string{"sendrecv", "sendonly", "recvonly", "inactive", "sendrecv"})
 		if flavor == "nodir" && r.Bool(0.6) {
 			s.dir = ""
+			if r.Bool(0.3) && i > 0 {
+				s.port = 0 // a disabled m-line: port 0 and no direction attribute at all
+			}
 		}
 		if s.kind == "audio" || s.kind == "video" {
 			s.codecs = sgForeignCodecs(r, s.kind, fs.pts)
